@@ -16,7 +16,7 @@ theorem C10.closed_absorbing (s : St) (e : Ev) (h : s.status = .closed) :
     t.status = .closed ∧ t.inc = s.inc ∧ t.dials = s.dials ∧ t.tokens = s.tokens ∧ t.sent = s.sent ∧ t.resumes = s.resumes ∧
     t.disc = s.disc ∧ t.reconn = s.reconn ∧ t.streams = s.streams ∧ t.disconnectSent = s.disconnectSent ∧
     t.wireAfterClose = s.wireAfterClose ∧ t.pending = s.pending := by
-  sorry
+  exact step_closed s e h
 
 /-- … for whole histories: whatever happens after a Close, the wire and the notifications stay as they were at the Close -/
 theorem C10.silence_after_close (evs after : List Ev) :
@@ -24,35 +24,64 @@ theorem C10.silence_after_close (evs after : List Ev) :
     let t := run s after
     t.status = .closed ∧ t.sent = s.sent ∧ t.inc = s.inc ∧ t.tokens = s.tokens ∧ t.disc = s.disc ∧ t.reconn = s.reconn ∧
     t.streams = s.streams ∧ t.disconnectSent = 1 ∧ t.wireAfterClose = 0 := by
-  sorry
+  intro s t
+  have hs : s.status = .closed := by
+    show (run {} (evs ++ [.close])).status = .closed
+    rw [run_append]; exact step_close_status _
+  have hi := (inv_reach (evs ++ [.close])).i1
+  have hr := run_closed s after hs
+  obtain ⟨r1, r2, _, r4, r5, _, r7, r8, r9, r10, r11, _⟩ := hr
+  exact ⟨r1, r5, r2, r4, r7, r8, r9, by rw [r10]; exact hi.dsc hs, by rw [r11]; exact hi.wac⟩
 
 /-- requests after (or waiting at) the Close fail, all of them, none is sent -/
 theorem C10.requests_fail_after_close (evs : List Ev) (r : Nat) :
     let s := run {} (evs ++ [.close])
     s.pending = [] ∧ (step s (.request r)).failed = s.failed ++ [r] ∧ (step s (.request r)).sent = s.sent := by
-  sorry
+  intro s
+  have hs : s.status = .closed := by
+    show (run {} (evs ++ [.close])).status = .closed
+    rw [run_append]; exact step_close_status _
+  have hi := (inv_reach (evs ++ [.close])).i1
+  refine ⟨hi.pend (by rw [hs]; simp), ?_, ?_⟩ <;> simp [step, hs]
 
 /-- ONE DISCONNECT: the Disconnect is sent exactly when the connection is closed, once, however often Close is called -/
 theorem C10.one_disconnect (evs : List Ev) :
     ((run {} evs).status = .closed ↔ (run {} evs).disconnectSent = 1) ∧ (run {} evs).disconnectSent ≤ 1 ∧
     (run {} evs).wireAfterClose = 0 := by
-  sorry
+  have h := (inv_reach evs).i1
+  refine ⟨⟨h.dsc, ?_⟩, ?_, h.wac⟩
+  · intro hd
+    by_cases hs : (run {} evs).status = .closed
+    · exact hs
+    · have := h.dsn hs; omega
+  · by_cases hs : (run {} evs).status = .closed
+    · have := h.dsc hs; omega
+    · have := h.dsn hs; omega
 
 /-- CLOSED NOTIFICATIONS AT MOST ONCE: no stream ever gets a second closed notification, whatever the order of stream Close,
-    connection Close, refusals and repeated Close calls; after the connection's Close every stream is closed -/
+    connection Close, refusals, cut resumes and repeated Close calls; after the connection's Close no stream is live -/
 theorem C10.closed_events_at_most_once (evs : List Ev) :
     (∀ x ∈ (run {} evs).streams, x.closedEv ≤ 1) ∧
-    ((run {} evs).status = .closed → ∀ x ∈ (run {} evs).streams, (x.st = .closedOk ∨ x.st = .closedErr) ∧ x.closedEv = 1) := by
-  sorry
+    ((run {} evs).status = .closed → ∀ x ∈ (run {} evs).streams, live x = false) := by
+  have h := (inv_reach evs).i2.2.2
+  refine ⟨?_, ?_⟩
+  · intro x hx
+    obtain ⟨h1, h2, _⟩ := h x hx
+    rcases x with ⟨sid, dir, al, st, re, ce⟩
+    cases st <;> simp_all
+  · intro hc x hx
+    obtain ⟨_, _, h3, h4, _⟩ := h x hx
+    rcases x with ⟨sid, dir, al, st, re, ce⟩
+    cases st <;> simp_all [live]
 
 /-- a closed stream stays closed: no event re-opens or resumes it -/
-theorem C10.stream_close_final (s : St) (e : Ev) (x : Stream) (hx : x ∈ s.streams) (hc : x.st = .closedOk ∨ x.st = .closedErr)
+theorem C10.stream_close_final (s : St) (e : Ev) (x : Stream) (hx : x ∈ s.streams) (hc : live x = false)
     (hnd : (s.streams.map (·.sid)).Nodup) :
     x ∈ (step s e).streams := by
-  sorry
+  exact step_keeps_closed_stream s e x hx hc hnd
 
 example : let s := run {} [.openStream .up, .openStream .down, .closeStream 1, .kill, .close, .dial true, .request 3, .close, .resume 2 .ok]
-    s.status = .closed ∧ s.inc = 1 ∧ s.tokens = 1 ∧ s.failed = [3] ∧ s.disconnectSent = 1 ∧
-    s.streams.map (fun x => (x.sid, x.st, x.closedEv)) = [(1, .closedOk, 1), (2, .closedOk, 1)] := by decide
+    s.status = .closed ∧ s.inc = 1 ∧ s.tokens = 2 ∧ s.failed = [3] ∧ s.disconnectSent = 1 ∧
+    s.streams.map (fun x => (x.sid, x.st, x.closedEv)) = [(1, .closedOk, 1), (2, .closedConn, 0)] := by decide
 
 end Iscp.ConnM
